@@ -642,6 +642,11 @@ func panicOrigin(stack []byte) (callee bool) {
 		if strings.HasPrefix(ln, "runtime.") || strings.HasPrefix(ln, "panic(") {
 			continue
 		}
+		if strings.HasPrefix(ln, "github.com/CloudyKit/jet/v6.(*Runtime).recover(") {
+			// Execute's deferred recover re-raising the value: the original panic is further down
+			seenPanic = false
+			continue
+		}
 		if strings.HasPrefix(ln, "github.com/CloudyKit/jet/v6") || strings.HasPrefix(ln, "reflect.") {
 			return false
 		}
